@@ -664,14 +664,17 @@ class MPO(MPSGeometry):
         needs_JW = sites[first_nonzero].op_needs_JW(op)
         upper_left = 'JW' if needs_JW else 'Id'
 
+        first_kept = np.nonzero(np.abs(coeff) >= eps)[0][0]  # left of it, there is no 'IdR' state
         grids = []
         for i in range(L):
             local = None if abs(coeff[i]) < eps else [(op, coeff[i])]
             grid = [[upper_left, local], [None, 'Id']]
-            if i == 0:
+            if i <= first_kept:
                 grid = grid[:1]  # first row only
             if i == L - 1:  # last column only
-                grid = [grid[0][1:], grid[1][1:]]
+                grid = [row[1:] for row in grid]
+            elif i < first_kept:
+                grid = [row[:1] for row in grid]  # first column only
             grids.append(grid)
         IdL = [0] + [None] * L
         # note: for finite bc, the JW string ends at site 0, so we don't need to worry about
